@@ -14,9 +14,9 @@ COLL_MUTANTS = [
     ('fub', {'Mut': 'no_flag_clear'}, 'QueueMatchesFlags'),
     ('fub', {'Mut': 'no_vacate'}, 'C05'),
     ('fub_perp', {'Mut': 'lifo'}, 'C13'),
-    ('mb', {'Mut': 'no_rearm', 'MaxPolls': 2}, 'C11'),
+    ('mb', {'Mut': 'no_rearm', 'MaxPolls': 2}, 'ObligQueued'),
     ('mu_perp', {'CursorFix': False, 'NC': 2, 'MaxItems': 1}, 'C13'),
-    ('mu', {'Mut': 'legacy_mu_pending'}, 'C11'),
+    ('mu', {'CursorFix': False}, 'C11'),
     ('bo', {'Mut': 'legacy_ordfill'}, 'C16'),
     ('tbu', {'Mut': 'legacy_tryhint', 'MaxPolls': 1}, 'C17'),
     ('ja', {'Mut': 'legacy_joinleak'}, 'C06'),
